@@ -9,6 +9,7 @@ import (
 	"runtime"
 	"testing"
 	"testing/synctest"
+	"time"
 )
 
 // TestVPReplay replays one counterexample / witness file (VP_REPLAY_FILE) against the natively
@@ -82,7 +83,26 @@ func TestVPReplay(t *testing.T) {
 		}
 		stop := make(chan struct{})
 		go func() {
-			for k, lbl := range in.Resumes {
+			for k, ev := range in.Resumes {
+				lbl := ev.Label
+				if ev.Lazy {
+					// a lazily parked goroutine (API caller, environment) is released in the situation the executor
+					// chose: the other goroutines it saw parked must be parked, or the recorded quiescent instant reached
+					if len(ev.Parked) == 0 && ev.At > 0 {
+						if d := time.Duration(ev.At) - time.Since(vpR.start); d > 0 {
+							time.Sleep(d)
+						}
+					}
+					for _, pl := range ev.Parked {
+						for !vpHasWaiter(pl) {
+							select {
+							case <-vpR.arrived:
+							case <-stop:
+								return
+							}
+						}
+					}
+				}
 				for !vpReleaseNext(lbl) {
 					select {
 					case <-vpR.arrived:
@@ -90,13 +110,10 @@ func TestVPReplay(t *testing.T) {
 						return
 					}
 				}
-				// let the released goroutine run until it blocks again before the next release (the executor runs
-				// one goroutine at a time); goroutines parked on a sync.Mutex are not durably blocked, but then the
-				// run is a deadlock replay and is recognised by the watchdog
 				if in.Spin {
 					next := ""
 					if k+1 < len(in.Resumes) {
-						next = in.Resumes[k+1]
+						next = in.Resumes[k+1].Label
 					}
 					for i := 0; i < 20000; i++ {
 						runtime.Gosched()
